@@ -20,6 +20,15 @@ class HarnessError(Exception):
     """Something is wrong with the harness itself (never reported as a VIOLATION)."""
 
 
+class WorkerPoisoned(Exception):
+    """A thread running library code stopped responding (liveness violation).  The process cannot be used any more;
+    `info` carries the violation (None when it was already reported by an earlier work item of this process)."""
+
+    def __init__(self, info=None):
+        super().__init__("worker poisoned by an unresponsive library thread")
+        self.info = info
+
+
 # --------------------------------------------------------------------------- repo binding
 
 
@@ -387,6 +396,14 @@ def _pool_call(args):
         if isinstance(out, Result):
             out = out.to_dict()
         return ("ok", out)
+    except WorkerPoisoned as e:
+        res = Result()
+        res.executions = res.states = res.transitions = 1
+        if e.info:
+            res.violation(e.info["sig"], e.info["msg"], e.info["replay"])
+        res.caps.append("work items were skipped after a library thread stopped responding in this worker process")
+        d = res.to_dict()
+        return ("ok", d if fname != "explore_level" else dict(res=d, found=[], shape=item["shape"]["name"], first=()))
     except HarnessError as e:
         return ("harness", f"{e}\n{traceback.format_exc()}")
     except BaseException as e:  # noqa
